@@ -100,7 +100,7 @@ def parse_field_line(line, res):
     return (name, value)
 
 
-def parse_requests(data, max_msgs=8):
+def parse_requests(data, max_msgs=8, honour_upgrade=True):
     res = Result()
     n = len(data)
     pos = 0
@@ -244,8 +244,9 @@ def parse_requests(data, max_msgs=8):
             return res
         if wants_upgrade and up and (ieq(up[0], b"websocket") or ieq(up[0], b"tcp")):
             msg.upgrade = True
-            res.tail = data[pos:]
-            return res
+            if honour_upgrade:
+                res.tail = data[pos:]
+                return res
         if msg.close and pos < n:
             # bytes after a request that announced "Connection: close": the server
             # may ignore or refuse them, it must not treat them as another request
@@ -369,3 +370,84 @@ def dechunk(data):
         if data[pos:pos + 2] != b"\r\n":
             return None
         pos += 2
+
+
+# ---------------------------------------------------------------------------
+# response side: independent framer for the bytes a server wrote (RFC 9112 6.3)
+class Resp:
+    def __init__(self):
+        self.version = None
+        self.status = None
+        self.reason = None
+        self.headers = []
+        self.body = b""
+        self.complete = False
+        self.framing = None  # "none" | "length" | "chunked" | "close"
+
+
+def parse_responses(data, request_methods, closed):
+    """split the concatenated server output into responses.
+    request_methods: methods of the requests in order (HEAD responses have no body).
+    closed: the transport was closed afterwards (ends a close-delimited body).
+    returns (responses, error) - error is None or a string (malformed output)"""
+    out = []
+    pos = 0
+    n = len(data)
+    k = 0
+    while pos < n:
+        e = data.find(b"\r\n\r\n", pos)
+        if e < 0:
+            return out, "incomplete-header-block"
+        block = data[pos:e].split(b"\r\n")
+        pos = e + 4
+        r = Resp()
+        sl = block[0].split(b" ", 2)
+        if len(sl) < 2 or not sl[0].startswith(b"HTTP/1.") or len(sl[1]) != 3 or not sl[1].isdigit():
+            return out, "bad-status-line"
+        r.version = sl[0]
+        r.status = int(sl[1])
+        r.reason = sl[2] if len(sl) > 2 else b""
+        for line in block[1:]:
+            i = line.find(b":")
+            if i <= 0:
+                return out, "bad-field-line"
+            r.headers.append((line[:i].strip().lower(), line[i + 1:].strip()))
+        if 100 <= r.status < 200:
+            r.complete = True
+            r.framing = "none"
+            out.append(r)
+            continue  # interim response: does not consume a request
+        method = request_methods[k] if k < len(request_methods) else None
+        k += 1
+        te = [v for (h, v) in r.headers if h == b"transfer-encoding"]
+        cl = [v for (h, v) in r.headers if h == b"content-length"]
+        if method == "HEAD" or r.status in (204, 304):
+            r.framing = "none"
+            r.complete = True
+        elif te and te[-1].lower().split(b",")[-1].strip() == b"chunked":
+            r.framing = "chunked"
+            d = dechunk(data[pos:])
+            if d is None:
+                out.append(r)
+                return out, "bad-chunked-body"
+            body, complete, rest, _sizes = d
+            r.body = body
+            r.complete = complete
+            pos = n - len(rest) if complete else n
+        elif cl:
+            if len(cl) > 1 or not cl[0].isdigit():
+                return out, "bad-content-length"
+            ln = int(cl[0])
+            r.framing = "length"
+            r.body = data[pos:pos + ln]
+            r.complete = len(r.body) == ln
+            pos += ln
+        else:
+            r.framing = "close"
+            r.body = data[pos:]
+            r.complete = bool(closed)
+            pos = n
+        out.append(r)
+        if not r.complete:
+            break
+    return out, None
